@@ -12,12 +12,14 @@ def sh(cmd, cwd=None, timeout=3000):
 head = subprocess.run("git -C /repo rev-parse HEAD", shell=True, capture_output=True, text=True).stdout.strip()
 args = sys.argv[1:]
 round2 = False
-if args and args[0] == "--round2":
-    round2 = True
+rnd = 1
+if args and args[0] in ("--round2", "--round3"):
+    round2 = True  # rounds 2 and 3 share the meta format (demo_dest + demo_cmd)
+    rnd = int(args[0][-1])
     args = args[1:]
 for prop in args:
-    wt = f"/tmp/seed2-{prop}" if round2 else f"/tmp/seed-{prop}"
-    for ab in ("CD" if round2 else "AB"):
+    wt = {1: f"/tmp/seed-{prop}", 2: f"/tmp/seed2-{prop}", 3: f"/tmp/seed3-{prop}"}[rnd]
+    for ab in {1: "AB", 2: "CD", 3: "EF"}[rnd]:
         sd = f"{wt}/seedout/{ab}"
         if not os.path.exists(sd + "/patch.diff"):
             print(prop, ab, "no patch"); continue
